@@ -1,116 +1,218 @@
 (* C19/ProofsCacheInit.v — the repaired Cache.init (ring installed and only then the flag
-   set, both in one locked section) loses no acknowledged write under any schedule; the
-   pinned flag-first init does. *)
+   set, both in one locked section) and the repaired Engine.Free (exclusive engine lock,
+   second look at the cache size) lose no acknowledged write under any schedule; the
+   pinned flag-first init and the pinned unlocked Free each do. *)
 From Verif Require Import C19.Model C19.CacheInit C19.ProofsGen C19.ProofsPool.
+From Coq Require Import ZifyBool ZifyN.
 Open Scope N_scope.
+
+Definition coldphase (p : cphase) : Prop := p = CStart \/ p = CEntered \/ p = CSlow \/ p = CAcked.
 
 Record cinv (s : cstate) : Prop := mkCinv {
   ci_noinst : forall w, c_ph s w <> CMustInstall;
-  ci_cold : c_flag s = false ->
-            c_store s = HEmpty /\ c_acked s = [] /\ forall w, c_ph s w = CStart \/ c_ph s w = CSlow;
-  ci_hot : c_flag s = true -> exists g, c_store s = HRing g;
+  ci_inside : forall w, c_ph s w = CStart \/ c_ph s w = CAcked \/ In w (c_inside s);
+  ci_cold : c_flag s = false -> c_store s = HEmpty /\ forall w, coldphase (c_ph s w);
+  ci_size : c_size s = 0 -> cring s = [] /\ forall w v, c_ph s w <> CWritten v;
+  ci_hot : c_flag s = true -> exists g, c_store s = HRing g /\ g < c_gen s;
+  ci_fresh : forall g, c_gen s <= g -> c_rings s g = [];
   ci_fetched : forall w h, c_ph s w = CFetched h -> h = c_store s;
-  ci_written : forall w v, c_ph s w = CWritten v -> In v (cvisible s);
+  ci_written : forall w v, c_ph s w = CWritten v -> In v (cring s);
   ci_acked : incl (c_acked s) (cvisible s)
 }.
+
+Ltac simp_s :=
+  cbn [c_ph c_flag c_store c_acked c_size c_inside c_gen c_rings c_files c_fph cset_ph cset_fph] in *.
+Ltac unf_vis := unfold cvisible, cring in *; simp_s.
 
 Lemma cinv_init : cinv cinit.
 Proof.
   constructor; cbn; intros; try discriminate; auto.
-  intros x Hx. destruct Hx.
+  - split; auto. intros; left; reflexivity.
+  - split; [reflexivity|]. intros; discriminate.
+  - intros x Hx. destruct Hx.
 Qed.
 
-(* a step that only moves thread w to a phase that carries no obligation of its own *)
-Lemma cinv_set_plain s w p :
-  cinv s -> p <> CMustInstall ->
-  (c_flag s = false -> p = CStart \/ p = CSlow) ->
+Lemma cold_phase s w : cinv s -> c_flag s = false -> coldphase (c_ph s w).
+Proof. intros I Hc. destruct (ci_cold s I Hc) as (_ & C). apply C. Qed.
+
+(* a thread past init (and not finished) witnesses that the flag is set *)
+Lemma hot_of_phase s w : cinv s -> ~ coldphase (c_ph s w) -> c_flag s = true.
+Proof.
+  intros I Hn. destruct (c_flag s) eqn:F; [reflexivity|]. exfalso. apply Hn. apply cold_phase; assumption.
+Qed.
+
+Ltac notcold E := unfold coldphase; rewrite E; intros [X|[X|[X|X]]]; discriminate X.
+
+(* thread w, which holds the read lock before and after, moves to a phase p that is neither
+   written nor acknowledged; nothing else changes *)
+Lemma cinv_move s w p :
+  cinv s -> In w (c_inside s) ->
+  p <> CMustInstall -> (forall v, p <> CWritten v) ->
+  (c_flag s = false -> coldphase p) ->
   (forall h, p = CFetched h -> h = c_store s) ->
-  (forall v, p = CWritten v -> In v (cvisible s)) ->
   cinv (cset_ph s w p).
 Proof.
-  intros [I1 I2 I3 I4 I5 I6] Hp Hcold Hf Hw.
-  constructor; cbn [cset_ph c_ph c_flag c_store c_acked]; unfold cvisible in *; cbn [c_store c_rings].
+  intros [I1 I2 I3 I4 I5 I6 I7 I8 I9] Hin Hp Hnw Hcold Hf.
+  constructor; simp_s; unf_vis.
   - intros w0. unfold upd. destruct (N.eqb w0 w); [exact Hp|apply I1].
-  - intros Hc. destruct (I2 Hc) as (A & B & C). repeat split; try assumption.
+  - intros w0. unfold upd. destruct (N.eqb_spec w0 w) as [->|]; [right; right; exact Hin|apply I2].
+  - intros Hc. destruct (I3 Hc) as (A & C). split; [exact A|].
     intros w0. unfold upd. destruct (N.eqb w0 w); [apply Hcold, Hc|apply C].
-  - exact I3.
-  - intros w0 h. unfold upd. destruct (N.eqb w0 w); [apply Hf|apply I4].
-  - intros w0 v. unfold upd. destruct (N.eqb w0 w); [apply Hw|apply I5].
+  - intros Hz. destruct (I4 Hz) as (A & C). split; [exact A|].
+    intros w0 v. unfold upd. destruct (N.eqb w0 w); [apply Hnw|apply C].
+  - exact I5.
   - exact I6.
+  - intros w0 h. unfold upd. destruct (N.eqb w0 w); [apply Hf|apply I7].
+  - intros w0 v. unfold upd. destruct (N.eqb w0 w); [intros H; exfalso; eapply Hnw; eauto|apply I8].
+  - exact I9.
 Qed.
 
-Lemma cold_phase s w : cinv s -> c_flag s = false -> c_ph s w = CStart \/ c_ph s w = CSlow.
-Proof. intros I Hc. destruct (ci_cold s I Hc) as (_ & _ & C). apply C. Qed.
+(* only a monitor thread's phase changes *)
+Lemma cinv_set_fph s f p : cinv s -> cinv (cset_fph s f p).
+Proof. intros [I1 I2 I3 I4 I5 I6 I7 I8 I9]. constructor; simp_s; unf_vis; assumption. Qed.
 
-Ltac ctriv := try assumption; try (intros; discriminate); try (intros; congruence).
+Lemma inside_of_phase s w : cinv s -> c_ph s w <> CStart -> c_ph s w <> CAcked -> In w (c_inside s).
+Proof. intros I A B. destruct (ci_inside s I w) as [H|[H|H]]; [contradiction|contradiction|exact H]. Qed.
+
+(* nobody holds the read lock: every thread is before its write or has been acknowledged *)
+Lemma all_outside s : cinv s -> c_inside s = [] -> forall w, c_ph s w = CStart \/ c_ph s w = CAcked.
+Proof.
+  intros I Ein w. destruct (ci_inside s I w) as [H|[H|H]]; [left; exact H|right; exact H|].
+  rewrite Ein in H. destruct H.
+Qed.
 
 Lemma cexec_inv a s : cinv s -> cinv (cexec a s).
 Proof.
   intros I. unfold cexec.
-  destruct a as [w|w|w|w v|w]; cbn [cexec_with].
+  destruct a as [w|w|w|w|w v|w|f|f|]; cbn [cexec_with].
+  - (* CEnter *)
+    destruct (c_ph s w) eqn:E; try exact I.
+    destruct I as [I1 I2 I3 I4 I5 I6 I7 I8 I9].
+    constructor; simp_s; unf_vis; try assumption.
+    + intros w0. unfold upd. destruct (N.eqb w0 w); [discriminate|apply I1].
+    + intros w0. unfold upd. destruct (N.eqb_spec w0 w) as [->|]; [right; right; left; reflexivity|].
+      destruct (I2 w0) as [H|[H|H]]; auto. right; right; right; exact H.
+    + intros Hc. destruct (I3 Hc) as (A & C). split; [exact A|].
+      intros w0. unfold upd. destruct (N.eqb w0 w); [right; left; reflexivity|apply C].
+    + intros Hz. destruct (I4 Hz) as (A & C). split; [exact A|].
+      intros w0 v. unfold upd. destruct (N.eqb w0 w); [discriminate|apply C].
+    + intros w0 h. unfold upd. destruct (N.eqb w0 w); [discriminate|apply I7].
+    + intros w0 v. unfold upd. destruct (N.eqb w0 w); [discriminate|apply I8].
   - (* CInit1 *)
     destruct (c_ph s w) eqn:E; try exact I.
+    assert (Hin : In w (c_inside s)) by (apply inside_of_phase; try assumption; rewrite E; discriminate).
     destruct (c_flag s) eqn:F.
-    + apply cinv_set_plain; ctriv.
-    + apply cinv_set_plain; ctriv. intros _. right; reflexivity.
+    + apply cinv_move; try assumption; try discriminate; intros; congruence.
+    + apply cinv_move; try assumption; try discriminate; try (intros; congruence).
+      intros _. right; right; left; reflexivity.
   - (* CInit2 *)
     destruct (c_ph s w) eqn:E; try exact I.
     + exfalso. eapply ci_noinst; eauto.
-    + destruct (c_flag s) eqn:F.
-      * apply cinv_set_plain; ctriv.
+    + assert (Hin : In w (c_inside s)) by (apply inside_of_phase; try assumption; rewrite E; discriminate).
+      destruct (c_flag s) eqn:F.
+      * apply cinv_move; try assumption; try discriminate; intros; congruence.
       * (* the first locked init: install the ring, then set the flag *)
-        destruct (ci_cold s I F) as (Hs & Ha & Hph).
-        constructor; cbn [c_ph c_flag c_store c_acked c_gen c_rings]; unfold cvisible; cbn [c_store c_rings].
-        -- intros w0. unfold upd. destruct (N.eqb w0 w); [discriminate|apply (ci_noinst s I)].
+        destruct (ci_cold s I F) as (Hs & Hph).
+        destruct I as [I1 I2 I3 I4 I5 I6 I7 I8 I9].
+        assert (Hfresh : c_rings s (c_gen s) = []) by (apply I6; lia).
+        constructor; simp_s; unf_vis; rewrite ?Hs in *; rewrite ?Hfresh.
+        -- intros w0. unfold upd. destruct (N.eqb w0 w); [discriminate|apply I1].
+        -- intros w0. unfold upd. destruct (N.eqb_spec w0 w) as [->|]; [right; right; exact Hin|apply I2].
         -- discriminate.
-        -- intros _. eexists; reflexivity.
+        -- intros _. split; [reflexivity|].
+           intros w0 v. unfold upd. destruct (N.eqb w0 w); [discriminate|].
+           intros H. destruct (Hph w0) as [P|[P|[P|P]]]; rewrite P in H; discriminate.
+        -- intros _. exists (c_gen s). split; [reflexivity|lia].
+        -- intros g Hg. apply I6. lia.
         -- intros w0 h. unfold upd. destruct (N.eqb w0 w); [discriminate|].
-           intros H. destruct (Hph w0) as [P|P]; rewrite P in H; discriminate.
+           intros H. destruct (Hph w0) as [P|[P|[P|P]]]; rewrite P in H; discriminate.
         -- intros w0 v. unfold upd. destruct (N.eqb w0 w); [discriminate|].
-           intros H. destruct (Hph w0) as [P|P]; rewrite P in H; discriminate.
-        -- rewrite Ha. intros x Hx. destruct Hx.
+           intros H. destruct (Hph w0) as [P|[P|[P|P]]]; rewrite P in H; discriminate.
+        -- exact I9.
   - (* CFetch *)
     destruct (c_ph s w) eqn:E; try exact I.
-    apply cinv_set_plain; ctriv.
-    intros Hc. destruct (cold_phase s w I Hc) as [P|P]; rewrite P in E; discriminate.
+    assert (Hin : In w (c_inside s)) by (apply inside_of_phase; try assumption; rewrite E; discriminate).
+    apply cinv_move; try assumption; try discriminate; try (intros; congruence).
+    intros Hc. exfalso. pose proof (cold_phase s w I Hc) as P. revert P. notcold E.
   - (* CWrite *)
-    destruct (c_ph s w) as [| | | |h| |] eqn:E; try exact I.
+    destruct (c_ph s w) as [| | | | |h| |] eqn:E; try exact I.
+    assert (Hin : In w (c_inside s)) by (apply inside_of_phase; try assumption; rewrite E; discriminate).
     assert (Hh : h = c_store s) by (eapply ci_fetched; eauto).
-    assert (Fl : c_flag s = true).
-    { destruct (c_flag s) eqn:F; [reflexivity|].
-      destruct (cold_phase s w I F) as [P|P]; rewrite P in E; discriminate. }
-    destruct (ci_hot s I Fl) as [g Hg].
-    destruct h as [|g0].
-    + rewrite Hg in Hh; discriminate.
-    + assert (g0 = g) by (rewrite Hg in Hh; inversion Hh; reflexivity). subst g0.
-      constructor; cbn [c_ph c_flag c_store c_acked c_gen c_rings]; unfold cvisible; cbn [c_store c_rings];
-        rewrite ?Hg.
-      * intros w0. unfold upd at 1. destruct (N.eqb w0 w); [discriminate|apply (ci_noinst s I)].
-      * intros Hc. rewrite Hc in Fl; discriminate.
-      * intros _. eexists; reflexivity.
-      * intros w0 h. unfold upd at 1. destruct (N.eqb w0 w); [discriminate|].
-        intros H. rewrite <- Hg. eapply ci_fetched; eauto.
-      * intros w0 v0. unfold upd at 1 2. rewrite N.eqb_refl.
-        destruct (N.eqb w0 w).
-        -- intros H. inversion H; subst. apply in_or_app. right. left. reflexivity.
-        -- intros H. apply in_or_app. left.
-           pose proof (ci_written s I w0 v0 H) as V. unfold cvisible in V. rewrite Hg in V. exact V.
-      * unfold upd. rewrite N.eqb_refl. intros x Hx. apply in_or_app. left.
-        pose proof (ci_acked s I x Hx) as V. unfold cvisible in V. rewrite Hg in V. exact V.
-  - (* CAck *)
-    destruct (c_ph s w) as [| | | | |v|] eqn:E; try exact I.
-    assert (Fl : c_flag s = true).
-    { destruct (c_flag s) eqn:F; [reflexivity|].
-      destruct (cold_phase s w I F) as [P|P]; rewrite P in E; discriminate. }
-    constructor; cbn [c_ph c_flag c_store c_acked c_gen c_rings]; unfold cvisible; cbn [c_store c_rings].
-    + intros w0. unfold upd. destruct (N.eqb w0 w); [discriminate|apply (ci_noinst s I)].
+    assert (Fl : c_flag s = true) by (apply (hot_of_phase s w I); notcold E).
+    destruct (ci_hot s I Fl) as (g & Hg & Hlt).
+    destruct h as [|g0]; [rewrite Hg in Hh; discriminate|].
+    assert (g0 = g) by (rewrite Hg in Hh; inversion Hh; reflexivity). subst g0.
+    destruct I as [I1 I2 I3 I4 I5 I6 I7 I8 I9].
+    constructor; simp_s; unf_vis; rewrite ?Hg in *.
+    + intros w0. unfold upd. destruct (N.eqb w0 w); [discriminate|apply I1].
+    + intros w0. unfold upd. destruct (N.eqb_spec w0 w) as [->|]; [right; right; exact Hin|apply I2].
     + intros Hc. rewrite Hc in Fl; discriminate.
-    + apply (ci_hot s I).
-    + intros w0 h. unfold upd. destruct (N.eqb w0 w); [discriminate|apply (ci_fetched s I)].
-    + intros w0 v0. unfold upd. destruct (N.eqb w0 w); [discriminate|apply (ci_written s I)].
+    + intros Hz. lia.
+    + intros _. exists g. split; [reflexivity|exact Hlt].
+    + intros g1 Hg1. unfold upd. destruct (N.eqb_spec g1 g); [lia|apply I6, Hg1].
+    + intros w0 h. unfold upd. destruct (N.eqb w0 w); [discriminate|].
+      intros H. eapply I7; eauto.
+    + intros w0 v0. unfold upd at 1 2. rewrite N.eqb_refl.
+      destruct (N.eqb w0 w).
+      * intros H. inversion H; subst. apply in_or_app. right. left. reflexivity.
+      * intros H. apply in_or_app. left. apply (I8 w0 v0 H).
+    + unfold upd. rewrite N.eqb_refl. intros x Hx. apply I9 in Hx.
+      apply in_app_or in Hx. apply in_or_app. destruct Hx as [Hx|Hx]; [left; exact Hx|].
+      right. apply in_or_app. left. exact Hx.
+  - (* CAck *)
+    destruct (c_ph s w) as [| | | | | |v|] eqn:E; try exact I.
+    assert (Fl : c_flag s = true) by (apply (hot_of_phase s w I); notcold E).
+    assert (Hnz : c_size s <> 0).
+    { intros Hz. destruct (ci_size s I Hz) as (_ & C). eapply C; eauto. }
+    destruct I as [I1 I2 I3 I4 I5 I6 I7 I8 I9].
+    constructor; simp_s; unf_vis; try assumption.
+    + intros w0. unfold upd. destruct (N.eqb w0 w); [discriminate|apply I1].
+    + intros w0. unfold upd. destruct (N.eqb_spec w0 w) as [->|Hne]; [right; left; reflexivity|].
+      destruct (I2 w0) as [H|[H|H]]; auto. right; right. apply in_in_remove; assumption.
+    + intros Hc. rewrite Hc in Fl; discriminate.
+    + intros Hz. contradiction.
+    + intros w0 h. unfold upd. destruct (N.eqb w0 w); [discriminate|apply I7].
+    + intros w0 v0. unfold upd. destruct (N.eqb w0 w); [discriminate|apply I8].
     + intros x Hx. apply in_app_or in Hx. destruct Hx as [Hx|[Hx|[]]].
-      * apply (ci_acked s I x Hx).
-      * subst x. apply (ci_written s I w v E).
+      * apply (I9 x Hx).
+      * subst x. apply in_or_app. right. apply (I8 w v E).
+  - (* CIdle *)
+    destruct (c_fph s f); try exact I. apply cinv_set_fph, I.
+  - (* CFree *)
+    destruct (c_fph s f) as [|[|]|]; try exact I; [|apply cinv_set_fph, I].
+    destruct (c_inside s) as [|x l] eqn:Ein; [|exact I].
+    destruct (N.eqb_spec (c_size s) 0) as [Hz|Hnz]; [|apply cinv_set_fph, I].
+    destruct (c_flag s) eqn:Fl; [|apply cinv_set_fph, I].
+    (* the release: nobody holds the read lock and the cache is empty *)
+    destruct (ci_size s I Hz) as (Hr & Hnw).
+    pose proof (all_outside s I Ein) as Hout.
+    destruct I as [I1 I2 I3 I4 I5 I6 I7 I8 I9].
+    constructor; simp_s; unf_vis.
+    + exact I1.
+    + intros w. destruct (Hout w) as [H|H]; [left; exact H|right; left; exact H].
+    + intros _. split; [reflexivity|]. intros w. destruct (Hout w) as [H|H]; rewrite H; unfold coldphase; auto.
+    + intros _. split; [reflexivity|]. exact Hnw.
+    + discriminate.
+    + exact I6.
+    + intros w h H. destruct (Hout w) as [P|P]; rewrite P in H; discriminate.
+    + intros w v H. destruct (Hout w) as [P|P]; rewrite P in H; discriminate.
+    + intros y Hy. apply I9 in Hy. rewrite Hr in Hy. exact Hy.
+  - (* CFlush *)
+    destruct (c_inside s) as [|x l] eqn:Ein; [|exact I].
+    destruct (c_store s) as [|g] eqn:Hg; [exact I|].
+    pose proof (all_outside s I Ein) as Hout.
+    destruct I as [I1 I2 I3 I4 I5 I6 I7 I8 I9].
+    constructor; simp_s; unf_vis; rewrite ?Hg in *.
+    + exact I1.
+    + intros w. destruct (Hout w) as [H|H]; [left; exact H|right; left; exact H].
+    + intros Hc. destruct (I3 Hc) as (A & _). discriminate A.
+    + intros _. split; [unfold upd; rewrite N.eqb_refl; reflexivity|].
+      intros w v H. destruct (Hout w) as [P|P]; rewrite P in H; discriminate.
+    + exact I5.
+    + intros g1 Hg1. unfold upd. destruct (N.eqb g1 g); [reflexivity|apply I6, Hg1].
+    + intros w h H. destruct (Hout w) as [P|P]; rewrite P in H; discriminate.
+    + intros w v H. destruct (Hout w) as [P|P]; rewrite P in H; discriminate.
+    + intros y Hy. apply I9 in Hy. apply in_or_app. left. exact Hy.
 Qed.
 
 Lemma cache_init_trace_inv tr : cinv (run_trace cexec tr cinit).
@@ -119,38 +221,82 @@ Proof. apply run_trace_inv; [intros; apply cexec_inv; assumption|apply cinv_init
 Lemma cinv_acked_visible s : cinv s -> cache_acked_visible s = true.
 Proof. intros I. unfold cache_acked_visible. apply subset_incl. apply (ci_acked s I). Qed.
 
-(* the store, once installed, is never replaced: what is visible stays visible *)
+(* a step never takes a visible value away: a ring is replaced only while it is empty, and
+   a flush moves its values to the files *)
 Lemma cexec_visible_mono a s : cinv s -> incl (cvisible s) (cvisible (cexec a s)).
 Proof.
   intros I x Hx. unfold cexec.
-  assert (Fl : c_flag s = true).
-  { destruct (c_flag s) eqn:F; [reflexivity|].
-    destruct (ci_cold s I F) as (Hs & _ & _). unfold cvisible in Hx. rewrite Hs in Hx. destruct Hx. }
-  destruct (ci_hot s I Fl) as [g Hg].
-  destruct a as [w|w|w|w v|w]; cbn [cexec_with].
-  - destruct (c_ph s w); try exact Hx. rewrite Fl. exact Hx.
+  destruct a as [w|w|w|w|w v|w|f|f|]; cbn [cexec_with].
+  - destruct (c_ph s w); exact Hx.
+  - destruct (c_ph s w); try exact Hx. destruct (c_flag s); exact Hx.
   - destruct (c_ph s w) eqn:E; try exact Hx.
     + exfalso. eapply ci_noinst; eauto.
-    + rewrite Fl. exact Hx.
+    + destruct (c_flag s) eqn:F; [exact Hx|].
+      destruct (ci_cold s I F) as (Hs & _). unf_vis. rewrite Hs in Hx.
+      apply in_app_or in Hx. apply in_or_app. destruct Hx as [Hx|[]]. left; exact Hx.
   - destruct (c_ph s w); exact Hx.
-  - destruct (c_ph s w) as [| | | |h| |] eqn:E; try exact Hx.
+  - destruct (c_ph s w) as [| | | | |h| |] eqn:E; try exact Hx.
     destruct h as [|g0]; [exact Hx|].
-    unfold cvisible in *; cbn [c_store c_rings]. rewrite Hg in *.
+    unf_vis. apply in_app_or in Hx. apply in_or_app. destruct Hx as [Hx|Hx]; [left; exact Hx|right].
+    destruct (c_store s) as [|g]; [exact Hx|].
     unfold upd. destruct (N.eqb_spec g g0); [subst; apply in_or_app; left; exact Hx|exact Hx].
   - destruct (c_ph s w); exact Hx.
+  - destruct (c_fph s f); exact Hx.
+  - destruct (c_fph s f) as [|[|]|]; try exact Hx.
+    destruct (c_inside s); [|exact Hx].
+    destruct (N.eqb_spec (c_size s) 0) as [Hz|Hnz]; [|exact Hx].
+    destruct (c_flag s); [|exact Hx].
+    destruct (ci_size s I Hz) as (Hr & _). unf_vis. 
+    apply in_app_or in Hx. apply in_or_app. destruct Hx as [Hx|Hx]; [left; exact Hx|].
+    rewrite Hr in Hx. destruct Hx.
+  - destruct (c_inside s); [|exact Hx].
+    destruct (c_store s) as [|g] eqn:Hg; [exact Hx|].
+    unf_vis. rewrite Hg in Hx. apply in_or_app. left. exact Hx.
 Qed.
 
-(* the pinned code: the loser of the CAS writes into the empty store and is acknowledged;
+(* the pinned init: the loser of the CAS writes into the empty store and is acknowledged;
    then the winner installs the ring *)
 Definition lost_first_write_trace : list cact :=
-  [CInit1 1; CInit1 2; CFetch 2; CWrite 2 22; CAck 2; CInit2 1; CFetch 1; CWrite 1 11; CAck 1].
+  [CEnter 1; CEnter 2; CInit1 1; CInit1 2; CFetch 2; CWrite 2 22; CAck 2; CInit2 1; CFetch 1; CWrite 1 11; CAck 1].
 
 Lemma flag_first_loses_write :
-  let s := run_trace (cexec_with true) lost_first_write_trace cinit in
+  let s := run_trace (cexec_with true false) lost_first_write_trace cinit in
   c_acked s = [22; 11] /\ cvisible s = [11] /\ cache_acked_visible s = false.
 Proof. vm_compute. repeat split. Qed.
 
 Lemma store_first_same_schedule :
-  let s := run_trace cexec lost_first_write_trace cinit in
-  cache_acked_visible s = true.
+  cache_acked_visible (run_trace cexec lost_first_write_trace cinit) = true.
 Proof. vm_compute. reflexivity. Qed.
+
+(* the pinned Free: the cache is allocated and empty (writer 1's value went to a file);
+   writer 2 has fetched the ring when the monitor, which found the cache empty, releases
+   it; the write lands in the discarded ring and is acknowledged *)
+Definition lost_to_free_trace : list cact :=
+  cwriter 1 11 ++ [CFlush; CEnter 2; CInit1 2; CFetch 2; CIdle 9; CFree 9; CWrite 2 22; CAck 2].
+
+Lemma unlocked_free_loses_write :
+  let s := run_trace (cexec_with false true) lost_to_free_trace cinit in
+  c_acked s = [11; 22] /\ cvisible s = [11] /\ cache_acked_visible s = false.
+Proof. vm_compute. repeat split. Qed.
+
+(* the same actions with the repaired release: it waits for writer 2 (a stutter step here)
+   and finds the cache non-empty when it runs again *)
+Lemma locked_free_same_schedule :
+  let s := run_trace cexec (lost_to_free_trace ++ [CFree 9]) cinit in
+  c_acked s = [11; 22] /\ cvisible s = [11; 22] /\ c_fph s 9 = FDone /\ c_flag s = true.
+Proof. vm_compute. repeat split. Qed.
+
+(* the write completes between the idle check and the release *)
+Definition lost_after_idle_check_trace : list cact :=
+  cwriter 1 11 ++ [CFlush; CIdle 9] ++ cwriter 2 22 ++ [CFree 9].
+
+Lemma unlocked_free_loses_completed_write :
+  let s := run_trace (cexec_with false true) lost_after_idle_check_trace cinit in
+  c_acked s = [11; 22] /\ cvisible s = [11] /\ cache_acked_visible s = false.
+Proof. vm_compute. repeat split. Qed.
+
+(* a release that does happen, and the next writer allocates again *)
+Lemma release_and_reallocate :
+  let s := run_trace cexec (cwriter 1 11 ++ [CFlush] ++ cmonitor 9 ++ cwriter 2 22) cinit in
+  c_acked s = [11; 22] /\ cvisible s = [11; 22] /\ c_gen s = 2 /\ c_store s = HRing 1 /\ c_fph s 9 = FDone.
+Proof. vm_compute. repeat split. Qed.
